@@ -679,5 +679,9 @@ func replayC13(c *Ctx, rule string, raw json.RawMessage) {
 			c.c13Differs(w, i, r0[i], got, "in reverse order in the same process")
 		}
 	}
-	fmt.Println("C13 replay re-ran the sequential workload; concurrency findings need ./check C13 quick")
+	if strings.HasPrefix(rule, "C13.reuse") {
+		c.Tier = "quick"
+		runC13Reuse(c, w)
+	}
+	fmt.Println("C13 replay re-ran the sequential workload (and the buffer-reuse cases for C13.reuse); concurrency findings need ./check C13 quick")
 }
